@@ -1,6 +1,6 @@
 """C01 - one verdict per announced client, then silence (DESIGN 5/C01)."""
 from . import pcommon
-from .. import alpha, e1
+from .. import alpha, e1, common, proto
 
 NEED = ('accept-D', 'accept-R', 'reject', 'soft-done', 'reannounce-live', 'stray-old', 'timeout-fired', 'withdraw-while-owed', 'accept-forced-by-timeout')
 
@@ -14,11 +14,83 @@ def plan(tier):
         p.append(S('triple/reduced/login+drone/t30', 'login+drone', 30, [1, 2, 3], alpha.reduced([1, 2, 3]), maxdepth=5))
     return p
 
+def e3_bursts(run):
+    """The unmodified daemon over a real pipe, real event loop and real timers - what the fork-server engine cannot show because it hands the daemon one
+    line at a time and fires only request timers:
+      A. N clients (N = 1, 8, 9, 12, 20, 40) complete in ONE write, every one is then withdrawn, a `? stats` request serves as barrier; after the barrier is
+         answered and 0.6 s have passed nothing may name a withdrawn client (a query written later by some other timer would);
+      B. a waiting client, 5-9 KB of other traffic and then its `D`, all in one write, with a 1 s request timeout: no verdict for the withdrawn id may
+         appear while the server stays quiet (a daemon that has not read all it was sent yet would time the client out)."""
+    import time
+    from .. import build, e3
+    b = build.build()
+    services = pcommon.G['login+drone']
+    n = 0
+    def names(line, ids, tags):
+        f = line.split(' ')
+        if line.startswith('X ') and len(f) > 2:
+            return f[2] in tags
+        return len(f) > 1 and f[0] in proto.CLIENT_CMDS and f[1] in ids
+    for N in (1, 8, 9, 12, 20, 40):
+        conf = e3.plain_conf(b, services=services, timeout=30, rules=pcommon.rules_for(services))
+        d = e3.Daemon(conf, b=b)
+        try:
+            if not d.wait_banner():
+                raise common.HarnessError('E3 daemon did not start')
+            ids = [str(10 + k) for k in range(N)]
+            burst = ''.join('%s C 10.0.1.%s 4%s 10.9.9.9 6667\n%s N host%s.example.net\n%s u ident%s\n%s n nick%s\n%s U user%s :Real Name %s\n' % ((i,) * 12) for i in ids)
+            burst += ''.join('%s D\n' % i for i in ids) + '-1 ? stats\n'
+            d.write(burst.encode())
+            if not d.wait_for(lambda o: b'srv alloc' in o and o.endswith(b'\n'), 30):
+                raise common.HarnessError('E3 burst: the stats request that serves as barrier was not answered within 30 s')
+            mark = len(d.lines())
+            time.sleep(0.6)
+            rc, out, err = d.close()
+        except Exception:
+            d.close()
+            raise
+        n += 1
+        tags = set()
+        for l in out:
+            f = l.split(' ')
+            if l.startswith('X ') and len(f) > 2 and f[2].split('_')[0] in ('%x' % int(i) for i in ids):
+                tags.add(f[2])
+        late = [l for l in out[mark - 1:] if names(l, set(ids), tags)]
+        if late or rc != 0:
+            run.violation('C01.line-after-end', '[E3 burst] %d clients completed in one write and then withdrawn: after the barrier was answered the daemon still wrote %r (exit %s)' % (N, late[:3], rc),
+                          {'engine': 'E3', 'conf': conf, 'n_clients': N, 'stdout_tail': out[-12:]}, dedup='e3burst')
+    for fill in (3000, 5000, 9000):
+        conf = e3.plain_conf(b, services=services, timeout=1, rules=pcommon.rules_for(services))
+        d = e3.Daemon(conf, b=b)
+        try:
+            if not d.wait_banner():
+                raise common.HarnessError('E3 daemon did not start')
+            burst = '100 C 10.0.1.1 4100 10.9.9.9 6667\n100 N host.example.net\n100 u ident\n100 n nick\n100 U user :Real Name\n101 C 10.0.1.2 4101 10.9.9.9 6667\n'
+            k = 0
+            while len(burst) < fill:
+                burst += '101 n nick%05d\n' % k
+                k += 1
+            burst += '100 D\n101 D\n'
+            d.write(burst.encode())
+            time.sleep(2.2)
+            rc, out, err = d.close()
+        except Exception:
+            d.close()
+            raise
+        n += 1
+        bad = [l for l in out if l.split(' ')[0] in ('D', 'R', 'k', 'K') and len(l.split(' ')) > 1 and l.split(' ')[1] in ('100', '101')]
+        if bad or rc != 0:
+            run.violation('C01.verdict-not-live', '[E3 burst] a waiting client, %d bytes of other traffic and its D in one write, 1 s request timeout, server quiet for 2.2 s: the daemon wrote %r (exit %s)' % (len(burst), bad[:3], rc),
+                          {'engine': 'E3', 'conf': conf, 'burst_bytes': len(burst), 'stdout_tail': out[-8:]}, dedup='e3quiet')
+    return {'e3_burst_runs': n}
+
+
 def main(tier):
     # two-client interleavings with challenge-response flows, judged by the observer (a query carrying the tag of a client that is gone ...)
     from . import c07
     # a timer left behind by a finished client is only ever enabled on a tree that leaves one (event TOO): its handler running on the released request
     # (a verdict for a client that is gone, or a sanitizer abort while writing one) is this property's violation
-    return pcommon.run_plan('C01', tier, plan(tier), ('C01.',), NEED, crash_is_violation=('TOO',), pre_cov=lambda run: c07.direct_differential(run, tier, prefixes=('C01.',), extras=False))
+    return pcommon.run_plan('C01', tier, plan(tier), ('C01.',), NEED, crash_is_violation=('TOO',), pre_cov=lambda run: c07.direct_differential(run, tier, prefixes=('C01.',), extras=False),
+                            extra_cov=e3_bursts)
 
 replay = pcommon.replay
